@@ -147,6 +147,21 @@ Section Merkle.
   (** data[lo:hi] *)
   Definition slice (lo hi : nat) (d : bytes) : bytes := firstn (hi - lo) (skipn lo d).
 
+  (** the byte ranges data[i*partSize : min(len, (i+1)*partSize)], i = 0 .. total-1 *)
+  Definition chunks_of (data : bytes) (part_size : N) : list bytes :=
+    let len := N.of_nat (length data) in
+    let total := (len + part_size - 1) / part_size in
+    map (fun i => slice (N.to_nat (N.of_nat i * part_size))
+                        (N.to_nat (N.min len ((N.of_nat i + 1) * part_size))) data)
+        (seq 0 (N.to_nat total)).
+
+  (** parts[i] = &Part{Index: i, Bytes: chunk i}; parts[i].Proof = *proofs[i] *)
+  Fixpoint mk_parts (i : N) (cs : list bytes) (prs : list proof) : list (option part) :=
+    match cs, prs with
+    | c :: cs', pr :: prs' => Some {| pt_index := i; pt_bytes := c; pt_proof := pr |} :: mk_parts (i + 1) cs' prs'
+    | _, _ => []
+    end.
+
   (** [NewPartSetFromData(data, partSize)].  [None] where the Go code panics (partSize = 0: integer
       division by zero; empty data: nil pointer in SimpleProofsFromByteSlices) and where its uint32
       arithmetic would wrap (len(data) + partSize - 1 >= 2^32; outside the modelled domain). *)
@@ -156,15 +171,11 @@ Section Merkle.
     else if two32 <=? len + part_size - 1 then None
     else
       let total := (len + part_size - 1) / part_size in
-      let chunks := map (fun i => slice (N.to_nat (N.of_nat i * part_size))
-                                        (N.to_nat (N.min len ((N.of_nat i + 1) * part_size))) data)
-                        (seq 0 (N.to_nat total)) in
+      let chunks := chunks_of data part_size in
       match proofs_from chunks with
       | None => None
       | Some (r, prs) =>
-        let parts := map (fun ip => Some {| pt_index := N.of_nat (fst ip); pt_bytes := fst (snd ip); pt_proof := snd (snd ip) |})
-                         (combine (seq 0 (N.to_nat total)) (combine chunks prs)) in
-        Some {| ps_total := total; ps_hash := bytes_to_hash r; ps_parts := parts; ps_count := total |}
+        Some {| ps_total := total; ps_hash := bytes_to_hash r; ps_parts := mk_parts 0 chunks prs; ps_count := total |}
       end.
 
   (** [NewPartSetFromHeader] *)
